@@ -323,9 +323,17 @@ func (b *c14Built) run(byCall bool, at int, forever bool) (key string, nontrivia
 // "blocks forever" into a verdict instead of a hung worker.
 func within(d time.Duration, f func()) bool {
 	done := make(chan struct{})
-	go func() { defer close(done); f() }()
+	var pan any
+	go func() {
+		defer close(done)
+		defer func() { pan = recover() }()
+		f()
+	}()
 	select {
 	case <-done:
+		if pan != nil {
+			panic(pan) // (a panic of f belongs to the caller, which reports it)
+		}
 		return true
 	case <-time.After(d):
 		return false
